@@ -3,9 +3,9 @@ import collections
 import csv
 import logging
 
-from cardutil import __version__
+from cardutil import __version__, CardutilError
 from cardutil.cli import get_config, print_banner, print_exception_details
-from cardutil.mciipm import IpmReader, IpmWriter, MciIpmDataError
+from cardutil.mciipm import IpmReader, IpmWriter
 
 
 def cli_entry(*args):
@@ -28,7 +28,7 @@ def cli_run(**kwargs):
 
     try:
         kwargs['func'](config=config, **kwargs)
-    except MciIpmDataError as err:
+    except CardutilError as err:  # a record that cannot be read, or cannot be written again
         print_exception_details(err)
         return -1
 
